@@ -62,7 +62,7 @@ func (c C13Case) refText() string {
 }
 
 var c13Names = []string{"a", "ab", "c", "HOME", "HOMEDIRS", "exec_path", "lib", "lib_dirs"} // with names that are prefixes of other names
-var c13Literals = []string{"/x", "/usr/{bin,sbin}", "/lib{,64}", "/opt", "foo", "*-linux-gnu*", "[0-9]", "/", "/y/", "bar.so", "/{,usr/}bin", ""}
+var c13Literals = []string{"/x", "/usr/{bin,sbin}", "/lib{,64}", "/opt", "foo", "*-linux-gnu*", "[0-9]", "/", "/y/", "bar.so", "/{,usr/}bin", "", "c++", "/srv/c=d", "a+b"}
 
 // genC13Value draws a value of 1-4 parts. sizes holds the number of expansions
 // of each referable variable; the value's own expansion count is returned and
@@ -465,8 +465,21 @@ func TestC13_Invalid(t *testing.T) {
 			l.Values[0] = "@{" + l.Name + "}/self"
 		case "redefine":
 			at := rapid.IntRange(0, len(c.Lines)).Draw(t, "at")
+			again := []string{"/again"}
+			if rapid.Bool().Draw(t, "identical") {
+				// the very same definition once more is a second definition all the same
+				for di, dl := range c.Lines {
+					if dl.Kind == "var" && dl.Define && dl.Name == l.Name {
+						again = append([]string{}, dl.Values...)
+						if rapid.Bool().Draw(t, "adjacent") {
+							at = di + 1
+						}
+						break
+					}
+				}
+			}
 			nl := append([]C13Line{}, c.Lines[:at]...)
-			nl = append(nl, C13Line{Kind: "var", Name: l.Name, Define: true, Values: []string{"/again"}})
+			nl = append(nl, C13Line{Kind: "var", Name: l.Name, Define: true, Values: again})
 			c.Lines = append(nl, c.Lines[at:]...)
 		case "append-first":
 			nl := []C13Line{{Kind: "var", Name: l.Name, Values: []string{"/early"}}}
